@@ -7,7 +7,7 @@
    (Independence). *)
 From Coq Require Import ZArith List Bool Lia.
 From Mistletoe Require Import Base.Sx Base.PyStr Base.PyText Gen.GenConfig Model.CoreTokens Model.Block
-     Proofs.BlockProgress Proofs.Independence Proofs.QuoteLaw Proofs.ListLaw Proofs.Prose Proofs.PlainProse Spec.Fragment.
+     Proofs.BlockProgress Proofs.Independence Proofs.QuoteLaw Proofs.ListLaw Proofs.FenceLaw Proofs.Prose Proofs.PlainProse Spec.Fragment.
 Import ListNotations.
 Local Open Scope Z_scope.
 
@@ -35,27 +35,23 @@ Section Seq.
   Variable f : nat.
   Hypothesis Hnb : no_blankline_kind types = true.
 
-  (* a block that takes all of A and is closed, then a blank line, then B *)
+  (* a block that takes all of A whatever follows the blank line, then a blank line, then B *)
   Lemma seq_step A B ln st p stA esB loB stB :
     A <> [] ->
-    try_types types (tokenize_block types f) types A ln st = Some (p, length A, stA) -> closed_pre p = true ->
+    try_types types (tokenize_block types f) types (A ++ NL :: B) ln st = Some (p, length A, stA) ->
     tokenize_block types (S f) B (ln + nlines (length A) + 1) stA = (esB, loB, stB) ->
     tokenize_block types (S f) (A ++ NL :: B) ln st = (p :: esB, true, stB).
   Proof.
-    intros Hne Ht Hp HB. cbn [tokenize_block] in *. set (rec := tokenize_block types f) in *.
-    assert (Hrun : closed_run types rec (S (length A)) A ln st = true).
-    { destruct A as [|x X]; [contradiction|]. cbn [closed_run]. rewrite Ht, Hp. cbn [andb length].
-      replace (skipn (S (length X)) (x :: X)) with (@nil str) by (symmetry; apply (skipn_all (x :: X))).
-      destruct (length X); reflexivity. }
-    assert (HA : dispatch_loop types rec (S (length A)) A ln [] false st = ([p], false, stA)).
-    { destruct A as [|x X]; [contradiction|]. cbn [dispatch_loop]. rewrite Ht. cbn [length].
-      replace (skipn (S (length X)) (x :: X)) with (@nil str) by (symmetry; apply (skipn_all (x :: X))).
-      destruct (length X); reflexivity. }
-    destruct (dispatch_app types rec B (S (length A)) A ln [] false st (S (length (A ++ NL :: B)))) as [E _]; [lia|lia|exact Hrun|].
-    cbv zeta in E. rewrite E, HA. cbn [fst snd rev app].
+    intros Hne Ht HB. cbn [tokenize_block] in *. set (rec := tokenize_block types f) in *.
+    destruct A as [|x X]; [contradiction|]. cbn [app dispatch_loop]. change (x :: X ++ NL :: B) with ((x :: X) ++ NL :: B). rewrite Ht.
+    assert (Esk : skipn (length (x :: X)) ((x :: X) ++ NL :: B) = NL :: B).
+    { rewrite skipn_app, (skipn_all (x :: X)), Nat.sub_diag. reflexivity. }
+    rewrite Esk.
+    replace (length ((x :: X) ++ NL :: B)) with (S (S (length X + length B))) by (rewrite app_length; cbn [length]; lia).
+    cbn [length].
     rewrite dispatch_nl by exact Hnb. rewrite dispatch_general.
-    rewrite <- (fuel_suffices types rec (S (length B)) (length (A ++ NL :: B)) B) by (rewrite ?app_length; cbn [length]; lia).
-    rewrite HB. reflexivity.
+    rewrite <- (fuel_suffices types rec (S (length B)) (S (length X + length B)) B) by lia.
+    cbn [length] in HB. rewrite HB. reflexivity.
   Qed.
 End Seq.
 
@@ -115,6 +111,9 @@ Definition item_first_line (mk : marker) (pad : nat) (inner : list sline) : str 
 Fixpoint wf_b (t : ftree) : bool :=
   match t with
   | FPara c body => plain_line_b (c :: body) && negb (mem 9 (c :: body))
+  | FFence ch n content =>
+    ((ch =? 96) || (ch =? 126)) && Nat.leb 3 n && forallb sline_okb content && forallb notab_b content &&
+    forallb (fun l => match l with SBlank => true | SLine _ c _ => negb (c =? ch) end) content
   | FQuote ts => seq_ok_b ts && forallb wf_b ts && good_b (join_blank (map spell ts))
   | FItem mk pad ts =>
     marker_okb mk && Nat.leb 1 pad && Nat.leb pad 4 && seq_ok_b ts && forallb wf_b ts && good_b (join_blank (map spell ts)) &&
@@ -181,16 +180,17 @@ Section Main.
   Hypothesis Hq : quote_first types = true.
   Hypothesis Hl : list_first types = true.
   Hypothesis Hp : In BK_Paragraph types.
+  Hypothesis Hf : fence_first types = true.
 
   Definition P (f : nat) : Prop := forall t ln st, wf_b t = true -> (depth t <= f)%nat ->
     tokenize_block types (S f) (text_of (spell t)) ln st = ([pre_of ln t], false, st_after st t).
   Definition Q (f : nat) : Prop := forall ts ln st, seq_ok_b ts = true -> forallb wf_b ts = true -> Forall (fun t => (depth t <= f)%nat) ts ->
     tokenize_block types (S f) (text_of (join_blank (map spell ts))) ln st = (pre_seq ln ts, 1 <? Z.of_nat (length ts), st_seq st ts).
-  (* a closed block (paragraph, quote) as the reader sees it when more text follows *)
+  (* a block other than a list, as the reader sees it on its own and when a blank line and more text follow *)
   Definition C (f : nat) : Prop := forall t ln st, is_item t = false -> wf_b t = true -> (depth t <= f)%nat ->
-    text_of (spell t) <> [] /\ closed_pre (pre_of ln t) = true /\
-    try_types types (tokenize_block types f) types (text_of (spell t)) ln st =
-    Some (pre_of ln t, length (text_of (spell t)), st_after st t).
+    text_of (spell t) <> [] /\
+    forall B, try_types types (tokenize_block types f) types (text_of (spell t) ++ NL :: B) ln st =
+              Some (pre_of ln t, length (text_of (spell t)), st_after st t).
 
   Lemma depth_children t ts f : In t ts -> (S (fold_right (fun t m => Nat.max (depth t) m) 0%nat ts) <= S f)%nat -> (depth t <= f)%nat.
   Proof.
@@ -221,19 +221,81 @@ Section Main.
     cbn [spell text_of map length] in *. cbn [dispatch_loop]. rewrite T. reflexivity.
   Qed.
 
+  Lemma fence_text ch n content : (1 <= n)%nat -> text_of (spell (FFence ch n content)) = fence_block ch n content.
+  Proof.
+    intros Hn. cbn [spell]. unfold text_of, fence_block, fence_line. cbn [map render_line]. rewrite map_app. cbn [map render_line].
+    assert (E : line_of 0 ch (repeat ch (n - 1)) = repeat ch n ++ [10]).
+    { unfold line_of. cbn [repeat app]. destruct n as [|k]; [lia|]. replace (S k - 1)%nat with k by lia. reflexivity. }
+    rewrite E. reflexivity.
+  Qed.
+
+  Lemma fence_wf ch n content : wf_b (FFence ch n content) = true ->
+    fence_ok ch n /\ Forall sline_ok content /\ Forall (not_fence_start ch) content.
+  Proof.
+    cbn [wf_b]. intros H. repeat rewrite andb_true_iff in H. destruct H as [[[[Hc Hn] Hok] _] Hnf].
+    split; [split; [apply orb_true_iff in Hc as [Hc|Hc]; apply Z.eqb_eq in Hc; auto|apply Nat.leb_le; exact Hn]|].
+    split; apply Forall_forall; intros l0 Hin.
+    - rewrite forallb_forall in Hok. specialize (Hok l0 Hin). destruct l0 as [|k c body]; [exact I|].
+      cbn [sline_okb] in Hok. apply andb_true_iff in Hok as [A B]. apply negb_true_iff in B. split; assumption.
+    - rewrite forallb_forall in Hnf. specialize (Hnf l0 Hin). destruct l0 as [|k c body]; [exact I|].
+      cbn [not_fence_start]. apply negb_true_iff in Hnf. apply Z.eqb_neq. exact Hnf.
+  Qed.
+
+  Lemma fence_try rec ch n content rest ln st : wf_b (FFence ch n content) = true ->
+    try_types types rec types (text_of (spell (FFence ch n content)) ++ rest) ln st =
+    Some (pre_of ln (FFence ch n content), length (text_of (spell (FFence ch n content))), st).
+  Proof.
+    intros Hw. destruct (fence_wf ch n content Hw) as (Hfo & Hok & Hnf).
+    rewrite fence_text by (destruct Hfo as [_ H3]; lia).
+    apply (try_types_fence types rec ch n content rest ln st Hfo Hok Hnf types Hf).
+  Qed.
+
+  Lemma fence_try_nil rec ch n content ln st : wf_b (FFence ch n content) = true ->
+    try_types types rec types (text_of (spell (FFence ch n content))) ln st =
+    Some (pre_of ln (FFence ch n content), length (text_of (spell (FFence ch n content))), st).
+  Proof. intros Hw. pose proof (fence_try rec ch n content [] ln st Hw) as T. rewrite app_nil_r in T. exact T. Qed.
+
+  Lemma fence_tokenize f ch n content ln st : wf_b (FFence ch n content) = true ->
+    tokenize_block types (S f) (text_of (spell (FFence ch n content))) ln st = ([pre_of ln (FFence ch n content)], false, st).
+  Proof.
+    intros Hw. rewrite tokenize_S.
+    pose proof (fence_try_nil (tokenize_block types f) ch n content ln st Hw) as T.
+    destruct (text_of (spell (FFence ch n content))) as [|x X] eqn:E.
+    - destruct (fence_wf ch n content Hw) as ((_ & H3) & _). rewrite fence_text in E by lia. discriminate.
+    - cbn [dispatch_loop]. rewrite T.
+      replace (skipn (length (x :: X)) (x :: X)) with (@nil str) by (symmetry; apply skipn_all).
+      cbn [length]. destruct (length X); reflexivity.
+  Qed.
+
+  Lemma para_try_app rec c body B ln st : wf_b (FPara c body) = true ->
+    try_types types rec types (text_of (spell (FPara c body)) ++ NL :: B) ln st = Some (pre_of ln (FPara c body), 1%nat, st).
+  Proof.
+    intros Hw. pose proof (para_try rec c body ln st Hw) as T. cbn [spell text_of map app] in *.
+    destruct (try_types_app types rec B (render_line (SLine 0 c body)) [] ln st types) as [T1 _].
+    destruct (T1 _ _ _ T eq_refl) as (E & _ & _). exact E.
+  Qed.
+
   Lemma C_from f : (forall f', f = S f' -> Q f') -> C f.
   Proof.
-    intros HQ t ln st Hi Hw Hd. destruct t as [c body|ts|mk pad ts]; [| |discriminate].
-    - split; [discriminate|]. split; [reflexivity|]. rewrite para_try by exact Hw. reflexivity.
+    intros HQ t ln st Hi Hw Hd. destruct t as [c body|ch n content|ts|mk pad ts]; [| | |discriminate].
+    - split; [discriminate|]. intros B. rewrite para_try_app by exact Hw. reflexivity.
+    - split; [destruct (fence_wf ch n content Hw) as ((_ & H3) & _); rewrite fence_text by lia; discriminate|].
+      intros B. rewrite fence_try by exact Hw. reflexivity.
     - destruct f as [|f']; [cbn [depth] in Hd; lia|]. specialize (HQ f' eq_refl).
       cbn [wf_b] in Hw. repeat rewrite andb_true_iff in Hw. destruct Hw as [[Hs Hall] Hg].
       destruct (good_lines _ Hg) as (c0 & body0 & rest & El & _ & _ & _ & _ & Hok & Hne).
       cbn [spell]. rewrite text_quote. remember (text_of (join_blank (map spell ts))) as inner eqn:Ei.
       destruct inner as [|l ls]; [contradiction|].
-      split; [discriminate|]. split; [rewrite pre_of_quote; reflexivity|].
-      rewrite (try_types_quote types (tokenize_block types (S f')) true l ls ln st types Hq Hok).
-      rewrite Ei. rewrite (HQ ts ln (mkPs false) Hs Hall (children_depth ts f' Hd)).
-      cbn [fst]. rewrite pre_of_quote. cbn [st_after]. rewrite <- Ei, map_length. reflexivity.
+      split; [discriminate|]. intros B.
+      pose proof (try_types_quote types (tokenize_block types (S f')) true l ls ln st types Hq Hok) as T.
+      assert (HN : tokenize_block types (S f') (l :: ls) ln (mkPs false) =
+                   (pre_seq ln ts, 1 <? Z.of_nat (length ts), st_seq (mkPs false) ts))
+        by (rewrite Ei; apply (HQ ts ln (mkPs false) Hs Hall (children_depth ts f' Hd))).
+      rewrite HN in T. cbn [fst] in T.
+      cbn [map] in *. destruct (try_types_app types (tokenize_block types (S f')) B (qline true l) (map (qline true) ls) ln st types) as [T1 _].
+      destruct (T1 _ _ _ T eq_refl) as (E & _ & _).
+      change ((qline true l :: map (qline true) ls) ++ NL :: B) with (qline true l :: map (qline true) ls ++ NL :: B).
+      rewrite E. rewrite pre_of_quote. cbn [st_after length]. rewrite map_length. reflexivity.
   Qed.
 
   Lemma Q_from f : P f -> C f -> Q f.
@@ -244,10 +306,10 @@ Section Main.
     - cbn [map join_blank flat_map]. rewrite app_nil_r. rewrite (HP t1 ln st Hw1 Hd1). reflexivity.
     - cbn [seq_ok_b] in Hs. apply andb_true_iff in Hs as [Hi Hsr]. apply negb_true_iff in Hi.
       change (map spell (t1 :: t2 :: r)) with (spell t1 :: spell t2 :: map spell r). rewrite text_join.
-      destruct (HC t1 ln st Hi Hw1 Hd1) as (Hne & Hcl & Ht).
+      destruct (HC t1 ln st Hi Hw1 Hd1) as (Hne & Ht).
       specialize (IH (ln + nlines (length (text_of (spell t1))) + 1) (st_after st t1) Hsr Hallr Hdr).
       change (spell t2 :: map spell r) with (map spell (t2 :: r)).
-      rewrite (seq_step types f Hnb _ _ ln st _ _ _ _ _ Hne Ht Hcl IH).
+      rewrite (seq_step types f Hnb _ _ ln st _ _ _ _ _ Hne (Ht _) IH).
       cbn [pre_seq length st_seq fold_left].
       assert (H : nlines (length (text_of (spell t1))) = height t1) by (unfold height, text_of, nlines; rewrite map_length; reflexivity).
       rewrite H. assert (1 <? Z.of_nat (S (S (length r))) = true) as -> by (apply Z.ltb_lt; lia). reflexivity.
@@ -255,8 +317,9 @@ Section Main.
 
   Lemma P_succ f : Q f -> P (S f).
   Proof.
-    intros HQ t ln st Hw Hd. destruct t as [c body|ts|mk pad ts].
+    intros HQ t ln st Hw Hd. destruct t as [c body|ch n content|ts|mk pad ts].
     - rewrite para_tokenize by exact Hw. reflexivity.
+    - rewrite fence_tokenize by exact Hw. reflexivity.
     - cbn [wf_b] in Hw. repeat rewrite andb_true_iff in Hw. destruct Hw as [[Hs Hall] Hg].
       destruct (good_lines _ Hg) as (c0 & body0 & rest & El & _ & _ & _ & _ & Hok & Hne).
       cbn [spell]. rewrite text_quote.
@@ -275,8 +338,9 @@ Section Main.
 
   Lemma P_zero : P 0.
   Proof.
-    intros t ln st Hw Hd. destruct t as [c body|ts|mk pad ts]; [|cbn [depth] in Hd; lia|cbn [depth] in Hd; lia].
-    rewrite para_tokenize by exact Hw. reflexivity.
+    intros t ln st Hw Hd. destruct t as [c body|ch n content|ts|mk pad ts]; [| |cbn [depth] in Hd; lia|cbn [depth] in Hd; lia].
+    - rewrite para_tokenize by exact Hw. reflexivity.
+    - rewrite fence_tokenize by exact Hw. reflexivity.
   Qed.
 
   Theorem fragment_all : forall f, P f /\ Q f.
@@ -295,7 +359,7 @@ End Main.
 (* ---- the token configurations that are modelled qualify (Markdown's has a BlankLine token: outside) ---- *)
 From Mistletoe Require Import Model.Parser.
 Definition fragment_config (types : list block_kind) : bool :=
-  no_blankline_kind types && quote_first types && list_first types && existsb (fun k => kind_eqb k BK_Paragraph) types.
+  no_blankline_kind types && quote_first types && list_first types && existsb (fun k => kind_eqb k BK_Paragraph) types && fence_first types.
 Lemma fragment_configs :
   forallb (fun c => fragment_config (cfg_block c)) [cfg_html; cfg_html_nohtml; cfg_latex; cfg_mathjax; cfg_default] = true.
 Proof. vm_compute. reflexivity. Qed.
@@ -303,16 +367,18 @@ Proof. vm_compute. reflexivity. Qed.
 Theorem fragment_tree_cfg types t f ln st : fragment_config types = true -> wf_b t = true -> (depth t <= f)%nat ->
   tokenize_block types (S f) (text_of (spell t)) ln st = ([pre_of ln t], false, st_after st t).
 Proof.
-  unfold fragment_config. intros H. repeat rewrite andb_true_iff in H. destruct H as [[[H1 H2] H3] H4].
+  unfold fragment_config. intros H. repeat rewrite andb_true_iff in H. destruct H as [[[[H1 H2] H3] H4] H5].
   apply fragment_tree; try assumption. apply in_dec_paragraph. exact H4.
 Qed.
 
-(* non-vacuity: a list inside a quote inside a list ..., 11 lines *)
+(* non-vacuity: a fence inside a list inside a quote inside a list ... *)
 Example fragment_instance :
-  let t1 := FItem (MBullet 45) 2 [FPara 97 $"b"; FQuote [FPara 99 $"d"; FItem (MOrdered $"12" 41) 1 [FPara 101 []]]; FPara 102 []] in
-  let t2 := FQuote [FQuote [FPara 97 []]; FPara 98 []; t1] in
-  wf_b t2 = true /\ depth t2 = 4%nat /\ length (spell t2) = 11%nat /\
-  text_of (spell t1) = [ $"-  ab" ++ [10]; [10]; $"   > cd" ++ [10]; $"   > " ++ [10]; $"   > 12) e" ++ [10]; [10]; $"   f" ++ [10] ].
+  let fence := FFence 96 3 [SLine 2 120 $" = 1"; SBlank; SLine 0 35 $" not a heading"] in
+  let t1 := FItem (MBullet 45) 2 [FPara 97 $"b"; FQuote [FPara 99 $"d"; FItem (MOrdered $"12" 41) 1 [FPara 101 []; fence]]; FPara 102 []] in
+  let t2 := FQuote [FQuote [FPara 97 []]; fence; FPara 98 []; t1] in
+  wf_b t2 = true /\ depth t2 = 4%nat /\ length (spell t2) = 23%nat /\
+  text_of (spell (FItem (MOrdered $"12" 41) 1 [FPara 101 []; fence])) =
+    [ $"12) e" ++ [10]; [10]; $"    ```" ++ [10]; $"      x = 1" ++ [10]; [10]; $"    # not a heading" ++ [10]; $"    ```" ++ [10] ].
 Proof. vm_compute. repeat split; reflexivity. Qed.
 
 (* ---- the token tree: the inline phase on the fragment ---- *)
@@ -321,6 +387,7 @@ From Mistletoe Require Import Model.Tree Model.Inline Model.Build.
 Fixpoint tok_of (t : ftree) : tok :=
   match t with
   | FPara c body => Paragraph [RawText (c :: body)]
+  | FFence ch n content => CodeFence (mkFence 0 (repeat ch n) [] [] (concat (map render_line content)))
   | FQuote ts => Quote (map tok_of ts)
   | FItem mk pad ts =>
     let leader := marker_str mk in
@@ -339,7 +406,7 @@ Section Tokens.
     build span_types keep fn (pre_of ln t) = Some (tok_of t).
   Proof.
     induction f as [|f IH]; intros t ln Hd Hw.
-    - destruct t as [c body|ts|mk pad ts]; [|cbn [depth] in Hd; lia|cbn [depth] in Hd; lia].
+    - destruct t as [c body|ch n content|ts|mk pad ts]; [|reflexivity|cbn [depth] in Hd; lia|cbn [depth] in Hd; lia].
       cbn [wf_b] in Hw. apply andb_true_iff in Hw as [Hw _]. apply plain_line_reflect in Hw.
       cbn [pre_of build map concat tok_of]. rewrite app_nil_r.
       change (c :: body ++ [10]) with ((c :: body) ++ [10]).
@@ -350,7 +417,7 @@ Section Tokens.
       { induction ts as [|t0 r IHr]; intros ln0 Hds Hws; [reflexivity|].
         inversion Hds; subst. cbn [forallb] in Hws. apply andb_true_iff in Hws as [Hw1 Hwr].
         cbn [pre_seq flat_map map]. rewrite (IH t0 ln0) by assumption. cbn [app]. f_equal. apply IHr; assumption. }
-      destruct t as [c body|ts|mk pad ts].
+      destruct t as [c body|ch n content|ts|mk pad ts]; [|reflexivity| |].
       + cbn [wf_b] in Hw. apply andb_true_iff in Hw as [Hw _]. apply plain_line_reflect in Hw.
         cbn [pre_of build map concat tok_of]. rewrite app_nil_r.
         change (c :: body ++ [10]) with ((c :: body) ++ [10]).
